@@ -21,10 +21,10 @@ CHECKS = {
    text="Single-step obligation from ANY prior content of the per-anchor frames (fresh junk symbols = any call history): the result mentions no stale frame, equals the value determined by construction data and argument, leaves argument/construction molecules untouched, shares no array with them; by induction over the call sequence this covers every history length (state scope: structures up to the bound). Bounded part: exhaustive call sequences up to length 3/4 with rejected arguments and mutation of construction molecules on the real objects.",
    note="A1, A2; induction over the history is the two-line argument in DESIGN; TypeError clauses are bounded only",
    tech=TECH + " (single-step obligation under an arbitrary-state abstraction) + bounded run-time contract checking", ref="DESIGN.md section 6 C04"),
- "C05": dict(cat="other", engine="smallscope",
-   text="Contracts on Manager.extrapolate_system / complete_correspondence / calculate_exchange_maps taken from the statement are evaluated at run time on the real Manager/System/ExchangeMap/GroFile over every molecule sequence up to the bound x every subset of species given an end molecule x box kinds x scale factors, against an oracle computed from the generated input. Bounded only; no obligation is counted as proved.",
+ "C05": dict(cat="other", engine="pyvc+smallscope",
+   text="Deductive core (pyvc, systems of any length and composition): loop invariants of Manager.extrapolate_system with a ghost prefix sum (running atom counter = 1 + records written, skipped species write nothing, the records of molecule i are the atoms of its mapped molecule in order), pre-flight SystemError raised before the file is opened and only when nothing is complete or a map is missing, title and box assigned before the first record. Bounded: contracts on Manager.extrapolate_system / complete_correspondence / calculate_exchange_maps taken from the statement are evaluated at run time on the real Manager/System/ExchangeMap/GroFile over every molecule sequence up to the bound x every subset of species given an end molecule x box kinds x scale factors, against an oracle computed from the generated input.",
    note="bounded scope (sequences <= 3 quick / <= 5 thorough over 4 species); trusted: CPython, numpy, the check's own .gro formatter/parser; exchange-map values taken from the real ExchangeMap (its correctness is C01-C04)",
-   tech=BND, ref="DESIGN.md section 6 C05"),
+   tech=TECH + " of the extrapolation loop (pyvc) + " + BND, ref="DESIGN.md section 6 C05"),
  "C07": dict(cat="other", engine="symrun",
    text="move_mol_atom: for every labelled tree on 2..5 (quick) / 2..6 (+ sampled 7) atoms and every moved atom the real function runs on fully symbolic coordinates, bond table and displacement (one path); the postconditions (moved atom displaced exactly, every tabulated bond has its tabulated length, input unmodified, termination, sqrt arguments non-negative) are discharged by z3 for all real inputs of that structure; cyclic graphs: exact bonds contain a spanning tree. find_atom_random_displ: loop-free, proved for all inputs and all random draws per neighbour-count class. Structure-bounded, hence 'other', not 'proof'.",
    note="A1 float64 as reals; A2 object-dtype transparency (concolic check per instance); generic-position precondition (no intermediate distance is zero) assumed; arbitrary molecule size not proved",
@@ -45,14 +45,14 @@ CHECKS = {
    text="remove_hydrogens: loop invariants with ghost counting functions on the AST of the real function, molecules and restraint lists of arbitrary length (z3 arrays + quantifiers): positions of non-hydrogen atoms in order, kept restraints in order designating the same two atoms. _split_list: contiguous non-empty covering parts for every list length and every number of parts 1..40. Bounded part: role swap / hydrogen filtering routed to the optimiser entry point, guessers exhaustive 1..40 x 1..40, Manager option routing.",
    note="element test abstracted as a pure predicate; numpy.array keeps row order; routing through Alignment/Manager is bounded only",
    tech=TECH + ": AST VC generation with quantified loop invariants over arrays (z3) + " + BND, ref="DESIGN.md section 6 C10"),
- "C11": dict(cat="other", engine="smallscope",
-   text="Contracts on System.__init__/add_molecule_top/__iter__/__getitem__/__len__/composition from the statement, evaluated on the real classes for every molecule sequence up to the bound over 4 species and every topology loading order, oracle = the generator's own record list. Bounded only.",
-   note="bounded scope (sequences <= 4 quick / <= 6 thorough, all loading orders); no deductive obligation (run matching over consumed numpy arrays inside a class)",
-   tech=BND, ref="DESIGN.md section 6 C11"),
- "C12": dict(cat="other", engine="smallscope",
-   text="Contracts on SystemGro iteration / len / n_atoms / box / title and random access as a single-step obligation from every forced cursor position and after every partial iteration, on generated files (all residue-kind sequences up to the bound, four numbering schemes, velocities on/off) against an independent parse. Bounded only.",
+ "C11": dict(cat="other", engine="pyvc+smallscope",
+   text="Deductive core: System._molecules_ordered_all_gen verified on its AST for block lists of any length (every yielded molecule spans its species' residue count, molecules of a block abut). Bounded: contracts on System.__init__/add_molecule_top/__iter__/__getitem__/__len__/composition from the statement, evaluated on the real classes for every molecule sequence up to the bound over the species alphabets (incl. restarted residue numbers), every topology loading order and read-then-load histories; oracle = the generator's own record list.",
+   note="the recognition itself (run matching over consumed numpy arrays) is bounded only (sequences <= 4 quick / <= 6 thorough, all loading orders)",
+   tech=TECH + " of the block generator (pyvc) + " + BND, ref="DESIGN.md section 6 C11"),
+ "C12": dict(cat="other", engine="pyvc+smallscope",
+   text="Deductive core (pyvc, any run-length list): the offset generator behind iteration/indexing/slicing yields residues that tile the atom records from 0 (loop invariants over the yielded list); GroFile.seek_atom positions the cursor at first_atom_offset + index*line_size, records the index, raises beyond the last atom. Bounded: contracts on SystemGro iteration / len / n_atoms / box / title and random access as a single-step obligation from every forced cursor position and after every partial iteration, on generated files (all residue-kind sequences up to the bound, four numbering schemes, velocities on/off) against an independent parse.",
    note="bounded scope (kind sequences <= 4 quick / <= 5 thorough; seeded long files); history length covered by the single-step-from-any-cursor reduction (state scope bounded)",
-   tech=BND, ref="DESIGN.md section 6 C12"),
+   tech=TECH + " of the offset arithmetic (pyvc) + " + BND, ref="DESIGN.md section 6 C12"),
  "C13": dict(cat="other", engine="pyvc+symrun+smallscope",
    text="Five-digit wrap: the wrap expressions are extracted from the AST of the real parse_atomlist and proved over all integers (n <= 99999 unchanged; always <= 5 digits). Record layout: the real writer/reader functions run on symbolic numbers with marker strings: every format (d+5,d), d=1..6, velocities on/off, name lengths: right fields in the right columns, line length 20+3w(1+vel), determine_format inverts the writer. Bounded part: real GroFile write/read on real files (titles, boxes, count modes, boundary values).",
    note="str.format / int / float by contract on marker strings (A3); one representative name per length (A6); file-level behaviour bounded only",
@@ -61,10 +61,10 @@ CHECKS = {
    text="Reader contract (accepted prefix => reaches into the box line and returns exactly the complete file's records) on every byte prefix of generated and shipped files; writer contract (every flushed state before close() returns is rejected) at every low-level write/seek of real writer sessions. Bounded only.",
    note="bounded scope (1..4 records quick / 1..8 thorough, shipped files); operation granularity = each low-level write/seek of the underlying file; OS-level atomicity not modelled",
    tech=BND, ref="DESIGN.md section 6 C14"),
- "C15": dict(cat="other", engine="smallscope+static",
-   text="Static obligation (discharged on the AST): are_connected and its callees are not recursive. Bounded contract checks of read_topology / MoleculeTop / are_connected / copy on every labelled graph on <= 4 atoms x every split of edges over bonds/constraints/pairs x decoration variants, large chains/stars/trees/forests (1000-3000 atoms) and the 16 shipped topologies against an independent parse.",
+ "C15": dict(cat="other", engine="pyvc+smallscope+static",
+   text="Deductive core (pyvc, any section length): _itp_top_atoms returns the atoms in file order and translates every bonded pair from file numbers to 0-based positions (ghost rank function, quantified array invariants); static obligation: are_connected and its callees are not recursive. Bounded contract checks of read_topology / MoleculeTop / are_connected / copy on every labelled graph on <= 4 atoms x every split of edges over bonds/constraints/pairs x decoration variants, large chains/stars/trees/forests (1000-3000 atoms) and the 16 shipped topologies against an independent parse.",
    note="bounded scope as stated; the recursion obligation is syntactic (call graph of components/__init__.py)",
-   tech=BND + "; plus one static call-graph obligation", ref="DESIGN.md section 6 C15"),
+   tech=TECH + " of the number->position translation (pyvc) + one static call-graph obligation + " + BND, ref="DESIGN.md section 6 C15"),
  "C16": dict(cat="other", engine="smallscope",
    text="Round-trip contracts on ItpLine (parse_itp_line + line) for every string up to length 6/7 over a small alphabet and on ItpFile read-write-read for every file of <= 4 (quick) / <= 5-6 lines over ten line kinds incl. repeated section headers and empty/multiple trailing comments, plus the 16 shipped topologies; oracle = an independent reference reading of the text. Bounded only.",
    note="bounded scope as stated; no deductive obligation (regular expressions and split/join chains are outside what the SMT string solvers decide here)",
